@@ -1525,10 +1525,67 @@ func restoreSmall(sb *davx.Sandbox, tree, before *davx.Node) {
 	fix(sb.Dir, tree, davx.Snapshot(sb.Dir))
 }
 
+// ---- rfault: the OS refuses os.Rename after LocalFileSystem.Move has passed its checks
+// (C02: a failed request changes nothing).  The source's directory is made immutable
+// (chattr +i: EPERM for every rename out of it, for root too), which needs a file system
+// that has the flag: the stage works in a directory under os.TempDir() (ext4 here), not in
+// the tmpfs scratch.  Where chattr is refused the stage produces no case.
+
+func chattr(flag, p string) error { return exec.Command("chattr", flag, p).Run() }
+
+func stageRFault(sink *hx.Sink) {
+	base, err := os.MkdirTemp("", "verif-rfault-")
+	if err != nil {
+		fmt.Fprintln(os.Stderr, "dav: rfault:", err)
+		return
+	}
+	defer os.RemoveAll(base)
+	tree := davx.Dir("root", davx.Dir(
+		"a", davx.Dir("src", davx.File("new content"), "sub", davx.Dir("m", davx.File("member"))),
+		"dst", davx.File("precious old content"),
+		"dstcol", davx.Dir("x", davx.File("existing member")),
+		"keep", davx.File("keep me")))
+	sb := davx.NewSandbox(filepath.Join(base, "w"), []string{"root"})
+	locked := filepath.Join(sb.Dir, "root", "a")
+	defer chattr("-i", locked)
+	type mv struct{ src, dst, ow string }
+	var cases []mv
+	for _, src := range []string{"/a/src", "/a/sub", "/a/sub/m"} {
+		for _, dst := range []string{"/dst", "/dstcol", "/dstcol/x", "/newname", "/dstcol/new", "/missing/new", "/a/src2"} {
+			for _, ow := range []string{"", "T", "F"} {
+				cases = append(cases, mv{src, dst, ow})
+			}
+		}
+	}
+	for _, c := range cases {
+		chattr("-i", locked)
+		if err := sb.Reset(tree); err != nil {
+			fmt.Fprintln(os.Stderr, "dav: rfault: reset:", err)
+			return
+		}
+		lock := locked
+		if c.src == "/a/sub/m" {
+			lock = filepath.Join(locked, "sub")
+		}
+		if err := chattr("+i", lock); err != nil {
+			fmt.Fprintln(os.Stderr, "dav: rfault: chattr +i is not available here:", err)
+			return
+		}
+		before := davx.Snapshot(sb.Dir)
+		r := davx.NewReq("MOVE", c.src)
+		r.Dest = c.dst
+		r.Overwrite = c.ow
+		d, o, after := sb.Do(r, before)
+		chattr("-i", lock)
+		d.WriteLimit = -2
+		sink.Put(davx.Line(sb, before, r, d, o, after))
+	}
+}
+
 func main() {
 	out := flag.String("out", "", "output file")
 	replay := flag.String("replay", "", "file of case lines to re-run")
-	stage := flag.String("stage", "universe", "universe|history|paths|traversal|cond|putfault|putsteps|headers|exotic|types|rootspell|raceput|wfault|tworoots")
+	stage := flag.String("stage", "universe", "universe|history|paths|traversal|cond|putfault|putsteps|headers|exotic|types|rootspell|raceput|wfault|rfault|tworoots")
 	flag.Parse()
 	if *stage == "wfault-child" {
 		scratch = filepath.Join(os.Getenv("VERIF_SCRATCH"), "wfault-child")
@@ -1627,6 +1684,8 @@ func main() {
 		stageRootSpell(sink)
 	case "wfault":
 		stageWFault(sink)
+	case "rfault":
+		stageRFault(sink)
 	case "raceput":
 		stageRacePut(sink)
 	case "tworoots":
